@@ -88,7 +88,8 @@ def parse_sm(text: str) -> dict:
         open_ = {}
         row_counts = []
         widths = set()
-        for m, meas in enumerate(c[5].split(",")):
+        # note data without any row is a chart of zero measures (valid, no objects)
+        for m, meas in enumerate(c[5].split(",") if c[5].strip() else []):
             rows = [r.strip() for r in meas.split("\n") if r.strip()]
             n = len(rows)
             row_counts.append(n)
